@@ -1,7 +1,7 @@
 SPECIFICATION Spec
 CONSTANTS
   Chunks = 8
-  PerCase = 16
+  PerCase = 4
 INVARIANTS
   CtxLaw
 POSTCONDITION Emit
